@@ -623,6 +623,13 @@ class Node:
                 self.add_child(n, before=before, deep=deep)
             return n  # need to return a node
 
+        # Validate `before` first: creating the node already registers it
+        if isinstance(before, Node) and before._parent is not self:
+            raise ValueError(
+                f"`before=node` ({before._parent}) "
+                f"must be a child of target node ({self})"
+            )
+
         source_node = None
         factory = self._tree._node_factory
         if isinstance(child, Node):
